@@ -647,3 +647,13 @@ def ob_i_shared(ob):
 
     ob.note("this obligation is the one registered as C04.g; it is also decided here because the converged density has the trace 2 nocc of its own molecule only if each density step is fed that molecule's occupation number")
     _m.ob_g(ob)
+
+
+# ---- shared obligation: the electron count of a converged finite-temperature density is that of its own molecule only if padded orbital slots take no part in the occupation ----
+@obligation(PID, "j", title="[shared with C09.e] electronic-temperature occupations (Krylov/KSA variant) in a padded batch: whenever the chemical-potential iteration of Fermi_Q stops, the occupations of each molecule's own orbitals add up to its number of occupied orbitals within the tolerance, and padded orbital slots carry no occupation — for arbitrary orbital energies and occupation values")
+def ob_j_shared(ob):
+    """trace of the density = number of valence electrons also for the thermal-smearing / KSA solvers"""
+    from . import C09 as _m  # imported lazily: the harness modules share obligations in both directions
+
+    ob.note("this obligation is the one registered as C09.e; it is also decided here because the trace of a converged density equals the electron count only if padded orbital slots carry no occupation in the finite-temperature solvers")
+    _m.ob_e(ob)
